@@ -36,6 +36,10 @@ pub enum Step {
     Clear { scramble: u64 },
     /// scramble, `clear(term)`, then a fresh `TerminalRenderer::new(term, true)` (resize path)
     Recreate { scramble: u64 },
+    /// draw and render, but the terminal refuses the `fail_at`-th command of the frame with an
+    /// error (the frame ends with `Err`); the application recovers the way it must: forced clear
+    /// (terminal scrambled before it), then it goes on drawing
+    FailedFrame { draws: Vec<Draw>, fail_at: usize, scramble: u64 },
 }
 
 #[derive(Clone, Debug, Hash, Serialize, Deserialize)]
@@ -171,6 +175,8 @@ struct ModelTerm {
     /// run_render sessions: the frame that was just rendered and still has to be judged
     to_judge: Option<Tag>,
     tainted: bool,
+    /// the n-th command from now is answered with an error instead of being executed
+    fail_in: Option<usize>,
     /// queueing terminal (see Case::delivery)
     delivery: Vec<u8>,
     polls: usize,
@@ -204,6 +210,7 @@ impl ModelTerm {
             dropped: false,
             to_judge: None,
             tainted: false,
+            fail_in: None,
             delivery: Vec::new(),
             polls: 0,
             chunks: Default::default(),
@@ -344,6 +351,14 @@ impl std::io::Write for ModelTerm {
 
 impl Terminal for ModelTerm {
     fn execute(&mut self, cmd: TerminalCommand) -> Result<(), Error> {
+        if let Some(left) = self.fail_in {
+            if left == 0 {
+                self.fail_in = None;
+                self.count("cmd.refused-with-error");
+                return Err(Error::Other("injected terminal failure".into()));
+            }
+            self.fail_in = Some(left - 1);
+        }
         let cmd = match cmd {
             TerminalCommand::Char(c) => {
                 self.count("cmd.char");
@@ -707,7 +722,9 @@ fn snapshot_surface(
                     SKind::Img(id, cells.height, cells.width)
                 }
                 CellKind::Glyph(glyph) => {
-                    let gi = world.glyphs.iter().position(|g| g == glyph).unwrap_or(usize::MAX);
+                    // (by what the glyph prints as - scene, size, fallback, frame -, not by the library's `==`)
+                    let printed = format!("{glyph:?}");
+                    let gi = world.glyphs.iter().position(|g| format!("{g:?}") == printed).unwrap_or(usize::MAX);
                     let key = (gi, cell.face());
                     let k = match glyph_keys.iter().position(|k| *k == key) {
                         Some(k) => k,
@@ -765,9 +782,13 @@ impl Prop for C01 {
                 }
             }
         }
-        let glyphs: Vec<(usize, usize)> = (0..if with_images && rng.bool() { rng.range(1, 2) } else { 0 })
+        let mut glyphs: Vec<(usize, usize)> = (0..if with_images && rng.bool() { rng.range(1, 2) } else { 0 })
             .map(|_| (rng.range(1, 2), rng.range(1, 3)))
             .collect();
+        // two glyphs of one size differ only in the frame of the second (see `check`)
+        if glyphs.len() == 2 && rng.bool() {
+            glyphs[1] = glyphs[0];
+        }
         let nfaces = *rng.pick(&[2u8, 4, NFACES]);
         let nsteps = rng.range(1, if tier.quick() { 12 } else { 40 });
         let mut steps = Vec::new();
@@ -791,6 +812,11 @@ impl Prop for C01 {
         for _ in 0..nsteps {
             let step = match rng.below(16) {
                 0 => Step::Clear { scramble: rng.next_u64() },
+                1 if rng.chance(1, 3) => {
+                    let draws: Vec<Draw> = (0..rng.range(1, (h * w).min(12))).map(|_| gen_draw(rng, &images, &glyphs)).collect();
+                    prev = Vec::new();
+                    Step::FailedFrame { draws, fail_at: rng.range(0, 30), scramble: rng.next_u64() }
+                }
                 1 => Step::Recreate { scramble: rng.next_u64() },
                 k => {
                     // small mutations of the previous drawing dominate
@@ -858,14 +884,23 @@ impl Prop for C01 {
         let glyphs: Vec<Glyph> = case
             .glyphs
             .iter()
-            .map(|(gh, gw)| {
+            .enumerate()
+            .map(|(gi, (gh, gw))| {
+                // every other glyph has a frame around the same (empty) symbol: glyphs that differ in
+                // nothing but the frame are different pictures
+                let frame = (gi % 2 == 1).then(|| {
+                    serde_json::from_str::<surf_n_term::glyph::GlyphFrame>(
+                        r##"{"border_width":[1,1,1,1],"border_color":"#ff0000","fill_color":"#00ff00"}"##,
+                    )
+                    .expect("glyph frame")
+                });
                 Glyph::new(
                     surf_n_term::Path::empty(),
                     surf_n_term::FillRule::default(),
                     None,
                     Size::new(*gh, *gw),
                     "g".to_string(),
-                    None,
+                    frame,
                 )
             })
             .collect();
@@ -894,6 +929,31 @@ impl Prop for C01 {
                     tainted = false;
                     prev_surface = None;
                     ctx.feat("step.clear");
+                }
+                Step::FailedFrame { draws, fail_at, scramble: seed } => {
+                    apply_draws(&world, &mut renderer, draws);
+                    let mut glyph_at = HashMap::new();
+                    let _ = snapshot(&world, &mut renderer, &mut glyph_keys, &mut glyph_at);
+                    term.glyph_at = glyph_at;
+                    term.fail_in = Some(*fail_at);
+                    let before = term.screen.placements.clone();
+                    let result = renderer.frame(&mut term);
+                    term.fail_in = None;
+                    ctx.feat_if(result.is_err(), "step.frame-failed-with-terminal-error");
+                    if result.is_err() {
+                        // A frame that ended with an error was not rendered: the renderer's picture of
+                        // the terminal is the one from before it, and `clear()` can only erase the
+                        // images of that picture. Placements the failed frame had already created are
+                        // taken off the terminal here (an application resets the terminal after an
+                        // output error); what the *following* frames do is judged as always.
+                        term.screen.placements.retain(|p| before.contains(p));
+                    }
+                    // whatever got through is on the terminal; the application clears and carries on
+                    term.screen.problems.clear();
+                    scramble(&mut term.screen, *seed);
+                    renderer.clear(&mut term).map_err(|e| Fail::new("clear-error", format!("{e:?}")))?;
+                    tainted = false;
+                    prev_surface = None;
                 }
                 Step::Recreate { scramble: seed } => {
                     scramble(&mut term.screen, *seed);
@@ -1109,6 +1169,12 @@ fn check_via_run_render(case: &Case, world: &World, pool: Vec<Image>, ctx: &mut 
                 Step::Clear { scramble: seed } => {
                     // too many pending frames: run_render drops them and forces a clear before the
                     // next frame it renders
+                    term.pending = 40;
+                    term.scramble_on_drop = Some(*seed);
+                    feats.push("run_render.frames-pending-over-limit".into());
+                }
+                Step::FailedFrame { scramble: seed, .. } => {
+                    // (run_render gives up on a terminal error; here the step is a forced clear)
                     term.pending = 40;
                     term.scramble_on_drop = Some(*seed);
                     feats.push("run_render.frames-pending-over-limit".into());
